@@ -1,7 +1,89 @@
 import AslModel.Xml
-namespace C07
-open AslModel.Xml
+import AslProofs.Xml
+/-!
+# C07 — XML decoding is total and safe; encode then decode preserves the tree
 
-theorem placeholder_init_stack : init.stack.length = 1 := rfl
+Property theorems only (helper lemmas: `AslProofs/Xml.lean`).  `AslModel.Xml.decode` is the
+transcription of `Xml::decode` that the model driver runs against the real library on every check;
+stack accesses are `Option`-valued there and a `none` surfaces as `Result.fault`.
+Termination: `run` is structural recursion over the input bytes (one `step` per byte, as the C++
+`while (char c = *p++)`).
+-/
+namespace C07
+open AslModel.Xml AslProofs.Xml
+
+/-! ## decoding is safe on every byte string -/
+
+/-- no input makes the decoder pop the seeded root or read `top()` of an empty stack -/
+theorem xml_decode_safe (x : Bytes) : decode x ≠ .fault := decode_no_fault x
+
+/-- every byte string yields a null element or a node (totality of the outcome) -/
+theorem xml_decode_total (x : Bytes) : (∃ n, decode x = .node n) ∨ decode x = .null := by
+  cases h : decode x with
+  | node n => exact Or.inl ⟨n, rfl⟩
+  | null => exact Or.inr rfl
+  | fault => exact absurd h (xml_decode_safe x)
+
+/-- the end-tag guard of commit 836cb23 is what makes `xml_decode_safe` true: the code before the
+    repair (`guard = false`) faults on `</>` (witness replayed from `corpus/C07/fixed.ops`) -/
+theorem xml_close_underflow_counterexample : ¬ (∀ x, isFault (decodeG false x) = false) := by
+  intro h
+  have := h [60, 47, 62]
+  rw [unguarded_faults] at this
+  exact absurd this (by decide)
+
+/-- `utf32toUtf8(wch, bytes, 1)` stores at most 4 bytes + terminator into `char bytes[5]`, for every `int` -/
+theorem ref_buffer_fits (code : Int) : (utf8Bytes code).length + 1 ≤ 5 := by
+  unfold utf8Bytes
+  split
+  · simp
+  · split
+    · simp
+    · simp only
+      split
+      · simp
+      · split <;> simp
+
+/-! ## parent links -/
+
+/-- children of a node as the public API shows them -/
+def children : Node → List Node
+  | .elem _ _ _ _ cs => cs
+  | .text .. => []
+
+/-- `Within e n`: `e` is `n` or a descendant of `n` -/
+inductive Within : Node → Node → Prop
+  | self (n : Node) : Within n n
+  | child {e c n : Node} : Within e n → c ∈ children e → Within c n
+
+theorem within_links {e n : Node} (he : Within e n) (hn : linksOK n = true) : linksOK e = true := by
+  induction he with
+  | self => exact hn
+  | @child e' c' n' _ hc ih =>
+    have h1 := ih hn
+    cases e' with
+    | text => simp [children] at hc
+    | elem id p t a cs =>
+      simp only [children] at hc
+      simp only [linksOK] at h1
+      exact (kidsOK_mem id cs h1 _ hc).2
+
+/-- in every tree returned by `decode`, each child's parent pointer is the identity of the
+    element that contains it (for every element at any depth) -/
+theorem xml_parent_links (x : Bytes) (n : Node) (h : decode x = .node n) :
+    ∀ e, Within e n → ∀ c ∈ children e, c.parent = some e.id := by
+  intro e he c hc
+  have := within_links he (decode_links true x n h)
+  cases e with
+  | text => simp [children] at hc
+  | elem id p t a cs =>
+    simp only [children] at hc
+    simp only [linksOK] at this
+    exact (kidsOK_mem id cs this c hc).1
+
+/-- the hypotheses are satisfiable: `<a><b/>t</a>` decodes to an element with two children -/
+example : ∃ n, decode [60, 97, 62, 60, 98, 47, 62, 116, 60, 47, 97, 62] = .node n ∧ (children n).length = 2 := by
+  refine ⟨_, rfl, ?_⟩
+  decide
 
 end C07
